@@ -215,12 +215,14 @@ theorem fKeyState_noNul {layout : Layout} (hl : NoNulLayout layout) (cfg : Cfg) 
     have hp := processKeyValue_noNul cfg (getCharForKey_noNul hl hval) hs
     simp only at h
     split at h
+    · cases h; exact ⟨hp.rbuf, noNul_nil, hp.pending, hp.suggestions⟩
     · split at h
-      · rename_i ch hk
-        cases h
-        exact ⟨hp.rbuf, noNul_cons.mpr ⟨keycodeToChar_ne_nul hk, hp.rtyped⟩, hp.pending, hp.suggestions⟩
+      · split at h
+        · rename_i ch hk
+          cases h
+          exact ⟨hp.rbuf, noNul_cons.mpr ⟨keycodeToChar_ne_nul hk, hp.rtyped⟩, hp.pending, hp.suggestions⟩
+        · cases h; exact hp
       · cases h; exact hp
-    · cases h; exact hp
 
 theorem fBackspaceState_noNul {s : FState} (hs : NoNulF s) (ctrl : Bool) : NoNulF (fBackspaceState s ctrl).1 := by
   unfold fBackspaceState
@@ -375,7 +377,9 @@ theorem fKey_noNul {w : World} (he : NoNulEnv w.env) (hsort : ∀ l, (w.sorter l
   split
   · exact ⟨hs, fCurrentSuggestion_noNul cfg hs⟩
   · rename_i s' hk
-    exact fCreateSuggestion_noNul he hsort cfg (fKeyState_noNul hl cfg hs hk)
+    split
+    · exact ⟨fKeyState_noNul hl cfg hs hk, noNulSugg_empty⟩
+    · exact fCreateSuggestion_noNul he hsort cfg (fKeyState_noNul hl cfg hs hk)
 
 /-- `FixedMethod::backspace_event` -/
 theorem fBackspace_noNul {w : World} (he : NoNulEnv w.env) (hsort : ∀ l, (w.sorter l).Perm l) (cfg : Cfg)
